@@ -59,6 +59,29 @@ func runGroup(t *testing.T, group string) {
 		}
 		inputs = append(inputs, e.extra...)
 		inputs = append(inputs, []byte{}, nil)
+		// inputs longer than 2^16 bytes whose 16-bit length-like fields are
+		// at their maximum: length arithmetic done in uint16 wraps there
+		if e.fixed == 0 {
+			for _, s := range e.seeds[:1] {
+				for _, total := range []int{65535 + 8, 65536 + len(s), 70000} {
+					big := make([]byte, total)
+					copy(big, s)
+					for i := len(s); i < total; i++ {
+						big[i] = 0xFF
+					}
+					inputs = append(inputs, big)
+					lim := len(s)
+					if lim > 48 {
+						lim = 48
+					}
+					for o := 0; o+2 <= lim; o++ {
+						c := lib.Clone(big)
+						c[o], c[o+1] = 0xFF, 0xFF
+						inputs = append(inputs, c)
+					}
+				}
+			}
+		}
 		if e.fixed > 0 {
 			var keep [][]byte
 			for _, in := range inputs {
